@@ -201,10 +201,61 @@ class LockGen:
         return '\n'.join(lines)
 
 
+def staggered_scenario(comp, rng, sid):
+    """overlapping tenures: 3-5 threads, each delays (payload reads of an otherwise unused second lock = scheduling
+    quanta), requests one mode on lock 0, holds it for a while, optionally converts, releases.  Under round robin the
+    delays decide who holds / queues behind whom (e.g. S holder + SIX holder + queued X, release orders of a group),
+    which back-to-back random episodes rarely produce."""
+    g = LockGen(comp, rng, nlocks=2)
+    nthreads = rng.choice([3, 3, 4, 5])
+    progs = []
+    for t in range(nthreads):
+        ops = [f'payrd 1'] * rng.randrange(0, 8)
+        mode = rng.choice(['S', 'S', 'SIX', 'X', 'X'])
+        v = g.var(t, mode)
+        ops.append(f'lock {mode} {v} 0')
+        hold = rng.randrange(0, 10)
+        if mode == 'X':
+            ops += [f'paywr 0 {g.nextval()}' for _ in range(rng.randrange(1, 3))]
+            ops += ['payrd 1'] * hold
+            if rng.random() < 0.3:
+                g.chain(t, 0, 'X', v, ops, 2)
+            else:
+                ops.append(f'dtor {v}')
+        elif mode == 'SIX':
+            ops += ['payrd 0'] * (hold // 2) + ['payrd 1'] * (hold - hold // 2)
+            if rng.random() < 0.4:
+                g.chain(t, 0, 'SIX', v, ops, 2)
+            else:
+                ops.append(f'dtor {v}')
+        else:
+            ops += ['payrd 0'] * hold
+            ops.append(f'dtor {v}')
+        if rng.random() < 0.3:
+            # a second, short request afterwards
+            m2 = rng.choice(['S', 'X', 'SIX'])
+            v2 = g.var(t, m2, 1)
+            ops += [f'lock {m2} {v2} 0'] + ([f'paywr 0 {g.nextval()}'] if m2 == 'X' else ['payrd 0']) + [f'dtor {v2}']
+        progs.append(ops)
+    pt = nthreads
+    px = g.var(pt, 'X')
+    progs.append([f'lock X {px} 0', f'dtor {px}', f'lock X {px} 1', f'dtor {px}'])
+    kinds = ','.join(g.block * (nthreads + 1))
+    policy = rng.choice([0, 0, 0, 1, 2])
+    lines = [f'SCEN {sid} comp={comp} nlocks=2 kinds={kinds} policy={policy} seed={rng.randrange(1, 1 << 30)} '
+             f'max_steps=4000 late={pt}']
+    lines += ['T ' + ';'.join(p) for p in progs]
+    lines.append('GO')
+    return '\n'.join(lines)
+
+
 def make_scenarios(comp, seed, count, prefix):
     rng = random.Random(f'{comp}-{seed}')
     out = []
     for i in range(count):
+        if rng.random() < 0.3:
+            out.append(staggered_scenario(comp, rng, f'{prefix}{i}'))
+            continue
         nlocks = 2 if rng.random() < 0.35 else 1
         g = LockGen(comp, rng, nlocks=nlocks)
         out.append(g.scenario(f'{prefix}{i}'))
